@@ -13,10 +13,12 @@ Definition u32 (z : Z) : Z := z mod 4294967296.
 (** hfile.c HPgetdiskblock(file_rec, block_size, moveto): returns (offset | FAIL, new f_end_off) *)
 Definition m_getdiskblock (f_end_off block_size : Z) : option Z * Z :=
   if block_size <? 0 then (None, f_end_off)
+  else if wrap32 (2147483647 - f_end_off) <? block_size then (None, f_end_off)
   else (Some f_end_off, wrap32 (f_end_off + block_size)).
 
 (** vgp.c vinsertpair: returns (new count | FAIL, nvelt) ; nvelt is uint16 *)
 Definition m_vinsertpair (nvelt : Z) : option Z * Z :=
+  if 65535 <=? nvelt then (None, nvelt) else
   let n' := u16 (nvelt + 1) in (Some n', n').
 
 (** hfiledd.c HTPstart: end_off after reading one DD block at [myoffset] holding [dds] = (offset, length) pairs *)
